@@ -1261,6 +1261,9 @@ class Store:
         self._apply_subschema_path(path)
         target.apply_defaults()
         target.set_value(added_state)
+        # the state may have named children of a glob store inside the
+        # new node: complete them with their declared defaults
+        target.apply_defaults()
 
     def move(self, move, process_store):
         '''
@@ -1383,6 +1386,7 @@ class Store:
         # the variables that only the sub-schema declares exist now:
         # give them their part of the initial state, as divide() does
         target.set_value(insertion['initial_state'])
+        target.apply_defaults()
 
         return process_updates, step_updates, flow_updates, topology_updates
 
@@ -1484,6 +1488,7 @@ class Store:
             target = self.get_path(daughter_path)
             target.apply_defaults()
             target.set_value(merged_initial_state)
+            target.apply_defaults()
 
         self._delete_path(mother_path)
         deletions.append(tuple(here + mother_path))
